@@ -5,6 +5,8 @@ P  spec/js/JsTokens.tla        vocabulary (atoms per ECMA-262 clause 12), NeedsS
 G  spec/js/JsTokensGen.tla     token sequences with separator choices: all pairs x six separators, pairs inside a template
                                substitution, triples, every trivia sequence, regular-expression bodies; -simulate for long sequences
 T  spec/js/JsTokensTrace.tla   judges the traces of harness/suites/jstok (js.Lexer.Next / RegExp)
+I  spec/js/JsLexImpl.tla       the lexer automaton over a class alphabet: TLC I => P on every class string, differential replay
+                               (checks/c06impl.py; a difference is MODEL-DRIFT, a verdict only from JsTokensTrace.tla)
 """
 import json
 import os
@@ -265,6 +267,8 @@ def run(ck):
                        "two whitespace atoms or two line terminators are never adjacent (token granularity of trivia runs is not fixed by the statement)",
                        "'<!--' and '-->' (Annex B HTML-like comments) are never formed by adjacent tokens; legacy octal forms are not generated",
                        "valid UTF-8 inputs only"]
+    import c06impl
+    c06impl.run(ck, thorough)       # design level: the lexer automaton (spec/js/JsLexImpl.tla) refines the property-level specs; differential replay
 
 
 def replay(ck, path):
